@@ -527,7 +527,7 @@ theorem list_closed (hp : p.head? ≠ some 0) (s0 : State) : PrimClosed i { T :=
     h.ofTbl (tbl_dropSessionRefs s id) (congrArg Prod.fst (kvt_dropSessionRefs s id)) (congrArg Prod.snd (kvt_dropSessionRefs s id))
   checkPrep s s1 pr hc hc1 md hr _ h :=
     h.ofTbl (tbl_checkPrep hr) (congrArg Prod.fst (kvt_checkPrep hr)) (congrArg Prod.snd (kvt_checkPrep hr))
-  checkFinish _ _ s pr _ hc md _ _ _ _ h :=
+  checkFinish _ _ s pr _ hc md _ _ _ _ _ h :=
     h.ofTbl (tbl_checkFinish s pr hc md) (congrArg Prod.fst (kvt_checkFinish s pr hc md)) (congrArg Prod.snd (kvt_checkFinish s pr hc md))
   chkRows _ _ _ _ := trivial
   insertSession s x h := h.ofTbl (tbl_insertSession s x) rfl rfl
@@ -543,7 +543,7 @@ theorem list_closed (hp : p.head? ≠ some 0) (s0 : State) : PrimClosed i { T :=
     h.ofTbl (tbl_deleteServicePost s node id v) (congrArg Prod.fst (kvt_deleteServicePost s node id v))
       (congrArg Prod.snd (kvt_deleteServicePost s node id v))
   deleteNodePost s name _ _ _ h := h.ofTbl (tbl_deleteNodePost s name) rfl rfl
-  bumpServiceIdx s name h := h.ofTbl (tbl_bump s name) rfl rfl
+  bumpServiceIdx s name _ h := h.ofTbl (tbl_bump s name) rfl rfl
   svcInsert s v hv _ _ _ h := h.ofTbl (tbl_svcInsert s v hv) (by simp [svcInsert]) (by simp [svcInsert])
 
 /-! ### the bound alone is closed under everything -/
@@ -618,7 +618,7 @@ theorem bound_closed (i : Nat) : PrimClosed i Guard.any (KvBound i) where
         exact ⟨hi, fun x hx => h.kvs x (List.mem_filter.mp hx).1, tombs_bound_foldl _ _ h.tombs⟩
   dropSessionRefs s id h := h.ofTbl (tbl_dropSessionRefs s id) (kvt_dropSessionRefs s id)
   checkPrep s s1 pr hc hc1 md hr _ h := h.ofTbl (tbl_checkPrep hr) (kvt_checkPrep hr)
-  checkFinish _ _ s pr _ hc md _ _ _ _ h := h.ofTbl (tbl_checkFinish s pr hc md) (kvt_checkFinish s pr hc md)
+  checkFinish _ _ s pr _ hc md _ _ _ _ _ h := h.ofTbl (tbl_checkFinish s pr hc md) (kvt_checkFinish s pr hc md)
   chkRows _ _ _ _ := trivial
   insertSession s x h := h.ofTbl (tbl_insertSession s x) rfl
   pqSet s s' id sess hr h := h.ofTbl (tbl_pqSet hr) (kvt_pqSet hr)
@@ -628,7 +628,7 @@ theorem bound_closed (i : Nat) : PrimClosed i Guard.any (KvBound i) where
   deleteCheckPre s node id x _ h := h.ofTbl (tbl_deleteCheckPre s node id x) (kvt_deleteCheckPre s node id x)
   deleteServicePost s node id v _ _ _ h := h.ofTbl (tbl_deleteServicePost s node id v) (kvt_deleteServicePost s node id v)
   deleteNodePost s name _ _ _ h := h.ofTbl (tbl_deleteNodePost s name) rfl
-  bumpServiceIdx s name h := h.ofTbl (tbl_bump s name) rfl
+  bumpServiceIdx s name _ h := h.ofTbl (tbl_bump s name) rfl
   svcInsert s v hv _ _ _ h := h.ofTbl (tbl_svcInsert s v hv) (by simp [kvt, svcInsert])
 
 /-- every stored index is bounded by the index of the last applied command -/
